@@ -287,6 +287,13 @@ impl Exec {
         }
         let mut keys: Vec<Pubkey> = set.into_iter().collect();
         keys.sort_by(|x, y| y.cmp(x));
+        // "rem_perm": {acct: [i0, i1, ...]} presents the account's banks in another order (a client trying orders)
+        if let Some(pm) = a.get("rem_perm").and_then(|m| m.get(acct)).and_then(|x| x.as_array()) {
+            let idx: Vec<usize> = pm.iter().filter_map(|x| x.as_u64().map(|v| v as usize)).collect();
+            if idx.len() == keys.len() && idx.iter().all(|&i| i < keys.len()) {
+                keys = idx.iter().map(|&i| keys[i]).collect();
+            }
+        }
         let mut out = vec![];
         let sub = a.get("oracle_sub").cloned();
         for k in keys {
@@ -534,9 +541,14 @@ impl Exec {
                 let bk = self.k(bank);
                 let g = self.group(&self.env.names.name(&b.group))?;
                 let mint = self.mint_name_of_bank(bank)?;
+                // program fees go to the token account of the wallet named by the global fee state ("fee_ata_of": "cache" presents
+                // the one of the wallet the group has cached instead, which differs after a rotation nobody propagated yet)
                 let fee_ata = match s(a, "fee_ata") {
                     Some(n) => self.k(n),
-                    None => self.env.ata(g.fee_state_cache.global_fee_wallet, &mint),
+                    None => {
+                        let w = if s(a, "fee_ata_of") == Some("cache") { g.fee_state_cache.global_fee_wallet } else { self.fee_state()?.global_fee_wallet };
+                        self.env.ata(w, &mint)
+                    }
                 };
                 let tp = self.token_prog(&b);
                 let mut m = ac::LendingPoolCollectBankFees {
@@ -642,7 +654,14 @@ impl Exec {
                         ixs_sysvar: solana_program::sysvar::instructions::ID,
                     }
                     .to_account_metas(None),
-                    ix::LendingAccountStartFlashloan { end_index: u64f(a, "end_index")? }.data(),
+                    // ("end_index_wide": a decimal string, for arguments beyond the 32-bit integers of the model checker)
+                    ix::LendingAccountStartFlashloan {
+                        end_index: match s(a, "end_index_wide") {
+                            Some(w) => w.parse::<u64>().map_err(|_| "end_index_wide".to_string())?,
+                            None => u64f(a, "end_index")?,
+                        },
+                    }
+                    .data(),
                 )
             }
             "end_fl" => {
